@@ -1,11 +1,15 @@
 (* Evaluator for the case files written by harness/cmd/locks. *)
-From VF Require Import Common.Verdict Locks.Model Locks.Spec.
-From Coq Require Import Bool.
+From VF Require Import Common.Verdict Locks.Model Locks.Spec Locks.Pile.
+From Coq Require Import Bool Arith.
 Open Scope string_scope.
 
-Record case := mkCase { c_steps : list step }.
+Inductive case :=
+| mkCase (steps : list Model.step)              (* calls on an in-memory directory tree *)
+| mkPileCase (obs : list pile_obs).       (* one thread driving a LockPile with scripted TryLockers *)
 
-Fixpoint viol_from (i : nat) (tr : list step) : verdict :=
+(* ---- directories ---------------------------------------------------------- *)
+
+Fixpoint viol_from (i : nat) (tr : list Model.step) : verdict :=
   match tr with
   | [] => VOk
   | s :: tr' =>
@@ -21,7 +25,7 @@ Fixpoint list_beq (a b : list bool) : bool :=
   end.
 
 (* model vs implementation: the model says "returned, everything free". *)
-Fixpoint mism_from (i : nat) (tr : list step) : verdict :=
+Fixpoint mism_from (i : nat) (tr : list Model.step) : verdict :=
   match tr with
   | [] => VOk
   | s :: tr' =>
@@ -34,5 +38,50 @@ Fixpoint mism_from (i : nat) (tr : list step) : verdict :=
     end
   end.
 
+(* ---- LockPile --------------------------------------------------------------- *)
+
+Definition action_eqb (a b : action) : bool :=
+  match a, b with
+  | ATryLock m x, ATryLock n y => Nat.eqb m n && Bool.eqb x y
+  | ALock m, ALock n | AUnlock m, AUnlock n => Nat.eqb m n
+  | ATau, ATau => true
+  | _, _ => false
+  end.
+
+Fixpoint actions_eqb (a b : list action) : bool :=
+  match a, b with
+  | [], [] => true
+  | x :: a', y :: b' => action_eqb x y && actions_eqb a' b'
+  | _, _ => false
+  end.
+
+Fixpoint pile_viol (i : nat) (st : list mutex * list mutex) (obs : list pile_obs) : verdict :=
+  match obs with
+  | [] => VOk
+  | o :: t =>
+    let (k, st') := pile_p st o in
+    if String.eqb k "" then pile_viol (S i) st' t else VViolation i k
+  end.
+
+Definition pile_fuel := 2000%nat.
+
+(* the sequential runner of the model against the recorded calls *)
+Fixpoint pile_mism (i : nat) (pile : list entry) (obs : list pile_obs) : verdict :=
+  match obs with
+  | [] => VOk
+  | o :: t =>
+    match run_cmd pile_fuel pile (po_cmd o) (po_oracle o) with
+    | None => if po_panicked o then pile_mism (S i) pile t else VMismatch i "model panics, code does not"
+    | Some (tr, Idle pile') =>
+      if po_panicked o then VMismatch i "code panics, model does not"
+      else if actions_eqb tr (po_calls o) then pile_mism (S i) pile' t
+      else VMismatch i "mutex calls"
+    | Some _ => VMismatch i "model call did not finish"
+    end
+  end.
+
 Definition check_case (c : case) : verdict :=
-  vcombine (viol_from 0 (c_steps c)) (mism_from 0 (c_steps c)).
+  match c with
+  | mkCase steps => vcombine (viol_from 0 steps) (mism_from 0 steps)
+  | mkPileCase obs => vcombine (pile_viol 0 ([], []) obs) (pile_mism 0 [] obs)
+  end.
